@@ -79,8 +79,11 @@ func sortWounds(ws []*pwr.Wound) {
 	})
 }
 
-// genSignedBuild: nested dirs, symlinks, empty files, sizes around block multiples
-func genSignedBuild(r *lib.Rng) *lib.Build {
+// genSignedBuild: nested dirs, symlinks (to files, to directories, dangling, through another
+// symlink; destinations spelled cleanly or not: "./x", "x/", "x/.", "d/../x"), empty files,
+// duplicated files (what a deduplicating tool would link together), sizes around block multiples.
+// rich = every optional feature present and small files (used by the fixed corpus cases).
+func genSignedBuild(r *lib.Rng, rich bool) *lib.Build {
 	b := &lib.Build{}
 	dirs := []string{"", "a/", "a/b/", "c/"}
 	nf := r.Range(1, 5)
@@ -89,31 +92,243 @@ func genSignedBuild(r *lib.Rng) *lib.Build {
 		if r.Chance(1, 4) {
 			sz = r.Range(0, 3*bs64)
 		}
+		if rich {
+			sz = []int{0, 1, 100, 700, 3000}[r.Intn(5)]
+		}
 		b.Put(lib.Entry{Path: fmt.Sprintf("%sf%d", dirs[r.Intn(len(dirs))], i), Kind: "file", Data: structuredContent(r, sz)})
 	}
-	if r.Chance(2, 3) {
+	if rich || r.Chance(2, 3) {
 		b.Put(lib.Entry{Path: "empty", Kind: "file"})
 	}
-	if r.Chance(2, 3) {
+	if rich || r.Chance(2, 3) {
 		b.Put(lib.Entry{Path: "d/e", Kind: "dir"})
 	}
-	if r.Chance(1, 2) {
+	if rich || r.Chance(1, 2) {
 		b.Put(lib.Entry{Path: "a/sub/deep", Kind: "dir"})
 		b.Put(lib.Entry{Path: "a/sub/deep/x", Kind: "file", Data: structuredContent(r, r.Range(1, 300))})
 	}
-	if r.Chance(2, 3) {
-		b.Put(lib.Entry{Path: "ln", Kind: "link", Dest: b.Files()[0].Path})
+	if rich || r.Chance(1, 3) { // two files with the same bytes
+		src := b.Files()[r.Intn(len(b.Files()))]
+		for _, f := range b.Files() { // rather a non-empty one
+			if len(src.Data) == 0 && len(f.Data) > 0 {
+				src = f
+			}
+		}
+		b.Put(lib.Entry{Path: []string{"dup", "a/dup", "c/dup"}[r.Intn(3)], Kind: "file", Data: append([]byte(nil), src.Data...)})
 	}
-	if r.Chance(1, 3) {
+	if rich || r.Chance(2, 3) {
+		t := b.Files()[0].Path
+		b.Put(lib.Entry{Path: "ln", Kind: "link", Dest: []string{t, t, "./" + t, "d/../" + t}[r.Intn(4)]})
+	}
+	if rich || r.Chance(1, 3) {
 		b.Put(lib.Entry{Path: "a/dangling", Kind: "link", Dest: "nowhere"})
+	}
+	if rich || r.Chance(1, 2) { // symlink to a directory
+		b.Put(lib.Entry{Path: "a/.keep", Kind: "file"})
+		b.Put(lib.Entry{Path: "lnd", Kind: "link", Dest: []string{"a", "a/", "a/.", "./a"}[r.Intn(4)]})
+		if rich || r.Bool() { // and one that goes through it: "lnd/../c" is not "c" for the OS in general
+			b.Put(lib.Entry{Path: "c/.keep", Kind: "file"})
+			b.Put(lib.Entry{Path: "via", Kind: "link", Dest: "lnd/../c"})
+		}
 	}
 	return b
 }
 
-// damageBuild applies 0..4 damages; returns the damaged tree and the damage labels
-func damageBuild(r *lib.Rng, signed *lib.Build, allowHiding bool) (*lib.Build, []string) {
+// outsideDest is the destination string that leads from the entry at path `from` of the actual
+// tree to `name` in the directory "outside" that sits beside the actual tree.
+func outsideDest(from, name string) string {
+	return strings.Repeat("../", strings.Count(from, "/")+1) + "outside/" + name
+}
+
+func toggleCase(s string) string {
+	b := []byte(s)
+	for i, c := range b {
+		if c >= 'a' && c <= 'z' {
+			b[i] = c - 32
+			return string(b)
+		}
+		if c >= 'A' && c <= 'Z' {
+			b[i] = c + 32
+			return string(b)
+		}
+	}
+	return s
+}
+
+// retargetVariants: destination strings that differ from the signed one d (link at path p) -
+// lexically unrelated, or equal after filepath.Clean, or equal up to case / a prefix / one byte,
+// or another spelling of the same place
+func retargetVariants(p, d string) [][2]string {
+	var out [][2]string
+	add := func(name, nd string) {
+		if nd != d && nd != "" {
+			out = append(out, [2]string{name, nd})
+		}
+	}
+	add("other", d+".other")
+	add("dotslash", "./"+d)
+	add("trailslash", d+"/")
+	add("traildot", d+"/.")
+	add("dblslash", strings.Replace(d, "/", "//", 1))
+	add("detour", "zz/../"+d)
+	add("cleaned", pathClean(d))
+	add("case", toggleCase(d))
+	add("prefix", d[:len(d)-1])
+	add("lastbyte", d[:len(d)-1]+string([]byte{d[len(d)-1] ^ 1}))
+	if j := strings.LastIndexByte(p, '/'); j >= 0 { // down from the root again: same place for a relative d
+		add("sameplace", strings.Repeat("../", strings.Count(p, "/"))+p[:j]+"/"+d)
+	}
+	return out
+}
+
+func pathClean(d string) string { return filepath.ToSlash(filepath.Clean(filepath.FromSlash(d))) }
+
+var (
+	c05FileLinkVariants = []string{"dangling", "samesibling", "sameoutside", "nearoutside", "todir", "loop"}
+	c05DirLinkVariants  = []string{"dangling", "outsidecopy", "todir", "loop"}
+)
+
+func c05Perm(r *lib.Rng, n int) []int {
+	p := make([]int, n)
+	for i := range p {
+		p[i] = i
+	}
+	for i := n - 1; i > 0; i-- {
+		j := r.Intn(i + 1)
+		p[i], p[j] = p[j], p[i]
+	}
+	return p
+}
+
+// c05Force asks damageBuild for exactly one damage of the given kind and variant
+type c05Force struct{ kind, variant string }
+
+// the fixed corpus of wrong-kind / wrong-destination shapes, one damage each, run at the start
+var c05ForcedCorpus = []c05Force{
+	{"file->link", "samesibling"}, {"file->link", "sameoutside"}, {"file->link", "nearoutside"}, {"file->link", "todir"}, {"file->link", "loop"},
+	{"dir->link", "outsidecopy"}, {"dir->link", "todir"}, {"dir->link", "loop"},
+	{"retarget", "dotslash"}, {"retarget", "trailslash"}, {"retarget", "traildot"}, {"retarget", "dblslash"}, {"retarget", "detour"},
+	{"retarget", "cleaned"}, {"retarget", "case"}, {"retarget", "prefix"}, {"retarget", "lastbyte"}, {"retarget", "sameplace"},
+}
+
+// fileToLink replaces the file e of a by a symlink; what the link leads to is the variant
+func fileToLink(r *lib.Rng, a, outside *lib.Build, e lib.Entry, variant string) string {
+	dest := ""
+	switch variant {
+	case "samesibling": // another file of the tree that still has exactly the signed bytes of e
+		for _, x := range a.Entries {
+			if x.Kind == "file" && x.Path != e.Path && bytes.Equal(x.Data, e.Data) {
+				rel, err := filepath.Rel(filepath.FromSlash("/"+e.Path+"/.."), filepath.FromSlash("/"+x.Path))
+				if err == nil {
+					dest = filepath.ToSlash(rel)
+					break
+				}
+			}
+		}
+		if dest != "" {
+			break
+		}
+		variant = "sameoutside"
+		fallthrough
+	case "sameoutside": // a file outside of the tree with exactly the signed bytes
+		name := fmt.Sprintf("o%d", len(outside.Entries))
+		outside.Put(lib.Entry{Path: name, Kind: "file", Data: append([]byte(nil), e.Data...)})
+		dest = outsideDest(e.Path, name)
+	case "nearoutside": // same length, one byte differs (one byte long where empty is expected)
+		d := append([]byte(nil), e.Data...)
+		if len(d) == 0 {
+			d = []byte{9}
+		} else {
+			d[[]int{0, len(d) - 1, r.Intn(len(d))}[r.Intn(3)]] ^= 4
+		}
+		name := fmt.Sprintf("o%d", len(outside.Entries))
+		outside.Put(lib.Entry{Path: name, Kind: "file", Data: d})
+		dest = outsideDest(e.Path, name)
+	case "todir":
+		dest = "."
+	case "loop":
+		dest = e.Path[strings.LastIndexByte(e.Path, '/')+1:]
+	default:
+		variant = "dangling"
+		dest = "ln-target"
+	}
+	a.Remove(e.Path)
+	a.Put(lib.Entry{Path: e.Path, Kind: "link", Dest: dest})
+	return fmt.Sprintf("file->link/%s:%s->%s", variant, e.Path, dest)
+}
+
+// dirToLink replaces the directory e of a (and what is below it) by a symlink
+func dirToLink(a, outside, signed *lib.Build, e lib.Entry, variant string) string {
+	dest := ""
+	switch variant {
+	case "outsidecopy": // a directory outside of the tree that holds a copy of the signed subtree
+		name := fmt.Sprintf("o%d", len(outside.Entries))
+		outside.Put(lib.Entry{Path: name, Kind: "dir"})
+		for _, x := range signed.Entries {
+			if strings.HasPrefix(x.Path, e.Path+"/") {
+				y := x
+				y.Path = name + x.Path[len(e.Path):]
+				outside.Put(y)
+			}
+		}
+		dest = outsideDest(e.Path, name)
+	case "todir":
+		dest = "."
+	case "loop":
+		dest = e.Path[strings.LastIndexByte(e.Path, '/')+1:]
+	default:
+		variant = "dangling"
+		dest = "nowhere-dir"
+	}
+	a.Remove(e.Path)
+	a.Put(lib.Entry{Path: e.Path, Kind: "link", Dest: dest})
+	return fmt.Sprintf("dir->link/%s:%s->%s", variant, e.Path, dest)
+}
+
+// damageBuild applies 0..4 damages (exactly the forced one if force != nil); returns the damaged
+// tree, what has to exist beside it (directory "outside": link targets) and the damage labels
+func damageBuild(r *lib.Rng, signed *lib.Build, allowHiding bool, force *c05Force) (*lib.Build, *lib.Build, []string) {
 	a := signed.Clone()
+	outside := &lib.Build{}
 	var tags []string
+	if force != nil {
+		nonEmpty := len(signed.Entries)
+		order := c05Perm(r, len(signed.Entries))
+		for _, k := range append(order, order...) { // first round: non-empty files only
+			e := signed.Entries[k]
+			if nonEmpty--; nonEmpty >= 0 && e.Kind == "file" && len(e.Data) == 0 {
+				continue
+			}
+			switch {
+			case force.kind == "file->link" && e.Kind == "file":
+				if force.variant == "samesibling" {
+					n := 0
+					for _, x := range signed.Entries {
+						if x.Kind == "file" && bytes.Equal(x.Data, e.Data) {
+							n++
+						}
+					}
+					if n < 2 {
+						continue
+					}
+				}
+				return a, outside, []string{fileToLink(r, a, outside, e, force.variant)}
+			case force.kind == "dir->link" && e.Kind == "dir":
+				if force.variant == "outsidecopy" && signed.Get(e.Path+"/x") == nil && signed.Get(e.Path+"/.keep") == nil {
+					continue // take a directory with something below it
+				}
+				return a, outside, []string{dirToLink(a, outside, signed, e, force.variant)}
+			case force.kind == "retarget" && e.Kind == "link":
+				for _, v := range retargetVariants(e.Path, e.Dest) {
+					if v[0] == force.variant {
+						a.Put(lib.Entry{Path: e.Path, Kind: "link", Dest: v[1]})
+						return a, outside, []string{fmt.Sprintf("retarget/%s:%s:%s->%s", v[0], e.Path, e.Dest, v[1])}
+					}
+				}
+			}
+		}
+		return a, outside, nil
+	}
 	n := r.Range(0, 4)
 	if r.Chance(1, 8) {
 		n = 0
@@ -128,7 +343,7 @@ func damageBuild(r *lib.Rng, signed *lib.Build, allowHiding bool) (*lib.Build, [
 			}
 			d := append([]byte(nil), cur.Data...)
 			sz := len(d)
-			switch r.Intn(10) {
+			switch r.Intn(11) {
 			case 0, 1: // flip
 				if sz == 0 {
 					continue
@@ -186,10 +401,8 @@ func damageBuild(r *lib.Rng, signed *lib.Build, allowHiding bool) (*lib.Build, [
 					a.Put(lib.Entry{Path: e.Path + "/inner", Kind: "file", Data: []byte("x")})
 				}
 				tags = append(tags, "file->dir:"+e.Path)
-			default: // file -> symlink
-				a.Remove(e.Path)
-				a.Put(lib.Entry{Path: e.Path, Kind: "link", Dest: "ln-target"})
-				tags = append(tags, "file->link:"+e.Path)
+			default: // file -> symlink (to nothing, to the same bytes elsewhere, to other bytes, to a directory, to itself)
+				tags = append(tags, fileToLink(r, a, outside, e, c05FileLinkVariants[r.Intn(len(c05FileLinkVariants))]))
 			}
 		case "dir":
 			if cur == nil || cur.Kind != "dir" {
@@ -204,7 +417,7 @@ func damageBuild(r *lib.Rng, signed *lib.Build, allowHiding bool) (*lib.Build, [
 			if hasChildren && !allowHiding {
 				continue
 			}
-			switch r.Intn(3) {
+			switch r.Intn(4) {
 			case 0:
 				a.Remove(e.Path)
 				tags = append(tags, "deldir:"+e.Path)
@@ -212,23 +425,23 @@ func damageBuild(r *lib.Rng, signed *lib.Build, allowHiding bool) (*lib.Build, [
 				a.Remove(e.Path)
 				a.Put(lib.Entry{Path: e.Path, Kind: "file", Data: []byte("was a dir")})
 				tags = append(tags, "dir->file:"+e.Path)
-			default:
-				a.Remove(e.Path)
-				a.Put(lib.Entry{Path: e.Path, Kind: "link", Dest: "nowhere-dir"})
-				tags = append(tags, "dir->link:"+e.Path)
+			default: // dir -> symlink (to nothing, to a copy of the subtree elsewhere, to another directory, to itself)
+				tags = append(tags, dirToLink(a, outside, signed, e, c05DirLinkVariants[r.Intn(len(c05DirLinkVariants))]))
 			}
 		case "link":
 			if cur == nil || cur.Kind != "link" {
 				continue
 			}
-			switch r.Intn(4) {
-			case 0:
-				a.Put(lib.Entry{Path: e.Path, Kind: "link", Dest: e.Dest + ".other"})
-				tags = append(tags, "retarget:"+e.Path)
-			case 1:
+			switch r.Intn(6) {
+			case 0, 1, 2:
+				vs := retargetVariants(e.Path, e.Dest)
+				v := vs[r.Intn(len(vs))]
+				a.Put(lib.Entry{Path: e.Path, Kind: "link", Dest: v[1]})
+				tags = append(tags, fmt.Sprintf("retarget/%s:%s:%s->%s", v[0], e.Path, e.Dest, v[1]))
+			case 3:
 				a.Remove(e.Path)
 				tags = append(tags, "dellink:"+e.Path)
-			case 2:
+			case 4:
 				a.Remove(e.Path)
 				a.Put(lib.Entry{Path: e.Path, Kind: "file", Data: []byte("not a link")})
 				tags = append(tags, "link->file:"+e.Path)
@@ -239,7 +452,7 @@ func damageBuild(r *lib.Rng, signed *lib.Build, allowHiding bool) (*lib.Build, [
 			}
 		}
 	}
-	return a, tags
+	return a, outside, tags
 }
 
 // observe what is at path with the same system calls a user would use
@@ -477,12 +690,14 @@ func runC05(c *Ctx) error {
 		return err
 	}
 	r := c.Rng.Fork()
-	n := c.N(36, 500)
+	nOld, nForced := 6, len(c05ForcedCorpus)
+	n := nOld + nForced + c.N(30, 494)
 	for i := 0; i < n; i++ {
 		cr := r.Fork()
-		signed := genSignedBuild(cr)
-		actual, tags := damageBuild(cr, signed, i%3 != 0)
-		if i < 6 { // corpus: shapes that failed before (fixed defects), always first
+		var signed, actual, outside *lib.Build
+		var tags []string
+		switch {
+		case i < nOld: // corpus: shapes that failed before (fixed defects), always first
 			signed = &lib.Build{}
 			sz := []int{100, bs64, 5, 2*bs64 + 10, bs64 - 1, 3 * bs64}[i]
 			signed.Put(lib.Entry{Path: "f", Kind: "file", Data: structuredContent(cr, sz)})
@@ -493,7 +708,14 @@ func runC05(c *Ctx) error {
 				d = append(d, 7)
 			}
 			actual.Put(lib.Entry{Path: "f", Kind: "file", Data: d})
+			outside = &lib.Build{}
 			tags = []string{fmt.Sprintf("corpus-longer:%d+%d", sz, ext)}
+		case i < nOld+nForced: // corpus: one wrong-kind / wrong-destination damage of each shape on a small build with every feature
+			signed = genSignedBuild(cr, true)
+			actual, outside, tags = damageBuild(cr, signed, true, &c05ForcedCorpus[i-nOld])
+		default:
+			signed = genSignedBuild(cr, false)
+			actual, outside, tags = damageBuild(cr, signed, i%3 != 0, nil)
 		}
 		base := filepath.Join(c.Tmp, fmt.Sprintf("c05-%d", i))
 		sdir, adir := filepath.Join(base, "signed"), filepath.Join(base, "actual")
@@ -501,6 +723,9 @@ func runC05(c *Ctx) error {
 			return err
 		}
 		if err := actual.WriteTo(adir); err != nil {
+			return err
+		}
+		if err := outside.WriteTo(filepath.Join(base, "outside")); err != nil {
 			return err
 		}
 		sig, err := lib.SignDir(sdir)
@@ -702,7 +927,7 @@ func runC05(c *Ctx) error {
 			cls = "pristine"
 		}
 		c.Out.Emit(&lib.Case{Group: "val", Class: cls, Nontrivial: len(tags) > 0,
-			Input: map[string]interface{}{"signed": signed.Summary(), "damage": tags},
+			Input: map[string]interface{}{"signed": signed.Summary(), "damage": tags, "outside": outside.Summary()},
 			Obs:   map[string]interface{}{"validate": wcls, "failfast": fcls, "wounds": woundsJ(wounds)}, Oracle: oracle,
 			Coq: fmt.Sprintf("($ID%%N, %s, %s, %s, (%s, %s, %s))", lib.CoqList(ds), lib.CoqList(ls), lib.CoqList(fs),
 				map[string]string{"ok": "ROk", "error": "RErr", "panic": "RPanic", "hang": "RHang"}[wcls],
